@@ -76,6 +76,19 @@ CHECKS.update({
                 note=SEARCH_NOTE),
 })
 
+UCI_NOTE = TRUST + "; stdout is one ordered stream and every cancelling handler joins the writer thread before returning, so an isready barrier after each command orders the transcript; the i-th SearchStart hook line belongs to the i-th go not answered from the book"
+CHECKS.update({
+    "C07": dict(level=MC, design="3 C07", technique="Uci.tla session model (commands + internal SearchFinish anywhere) model-checked; its simulated command sequences instantiated and fed to the real `weechess uci` process; transcripts validated by UciTrace.tla (queue of owed bestmoves, barriers, position computed by Chess.tla, LAN by ChessText.tla)",
+                text="All command histories up to length 6 are explored on the model (no unsolicited bestmove, answered at barrier, at most one due); the real process is driven by model-generated sequences over book/open/terminal/colliding/tiny-tree positions with legal move lists in three pacing modes, and every transcript must be a behaviour: uciok/readyok, `.state` FEN equal to the specification's position, exactly one legal LAN bestmove per go on an open position before the next cancelling command returns, exit status 0.",
+                note=UCI_NOTE),
+    "C14": dict(level=EX, design="3 C14", technique="TextGen.tla mutation model (single/field/double mutations of canonical texts, as code points) generated by TLC and replayed through the FEN and SAN readers in debug and release builds, outcomes judged by ChessTrace!TParse; Uci.tla Garbage action: model-generated sessions with garbage lines injected into the real UCI process, judged by UciTrace.tla",
+                text="Systematic, documented subset of 'all strings': every single mutation and field mutation of canonical FENs/SAN tokens, sampled double mutations, random strings; two build profiles because overflow checks differ; for the UCI loop every garbage line is followed by the isready barrier and the session must still end with status 0.",
+                note=UCI_NOTE + "; totality over all strings cannot be enumerated - the mutation model is the stated approximation"),
+    "C18": dict(level=MC, design="3 C18", technique="Uci.tla CleanAfterNewGame model-checked over all histories <= 6 (pinned handler as counterexample guard); real sessions with ucinewgame after every kind of prefix; the SearchStart hook (fresh / history length / table entries of the memory handed to the search) validated by UciTrace.tla",
+                text="The model shows that only the specified handler starts the next search from an empty memory; on the real process the first search after every ucinewgame must report a fresh artifact (no history, empty table), whatever was searched, stopped or collected before.",
+                note=UCI_NOTE),
+})
+
 NOT_YET = {
 }
 
